@@ -177,11 +177,12 @@ impl SourceView {
     /// Returns a requested minified line.
     pub fn get_line(&self, idx: u32) -> Option<&str> {
         let idx = idx as usize;
-        {
-            let lines = self.lines.lock().unwrap();
-            if idx < lines.len() {
-                return Some(lines[idx]);
-            }
+        // The cache check, the "fetched everything" check and the indexing loop
+        // all happen under the same lock: `processed_until` and `lines` must be
+        // seen in a consistent state.
+        let mut lines = self.lines.lock().unwrap();
+        if idx < lines.len() {
+            return Some(lines[idx]);
         }
 
         // fetched everything
@@ -189,7 +190,6 @@ impl SourceView {
             return None;
         }
 
-        let mut lines = self.lines.lock().unwrap();
         let mut done = false;
 
         while !done {
